@@ -5,6 +5,17 @@ NOTES = ("Technique: machine-checked proof in Coq 8.16 over hand-written executa
          "when either breaks.")
 NOT_APPLICABLE = {}
 CHECKS = {
+ "C11": {
+  "text": "Theorems over the symbolic PCM double buffer (Overlap.v): after blockin of packets k and k+1 - from ANY prior state and buffer - the "
+          "samples between the two block centres equal the specification's overlap-add of packets k and k+1 and mention no other packet; "
+          "returned range stays inside that region; tracking state never reaches the audio path; all indices in bounds. The model is replayed "
+          "against the real blockin/lapout/restart bit for bit (float32 emulation), and the locality property itself is evaluated on real encoder "
+          "streams under drop/duplicate/truncate/bit-flip/randomise/restart disturbances.",
+  "note": "Trusted: Coq kernel, extraction, ml/driver.ml float32 emulation, harness/c11.c. The per-packet spectral decode (floor, residue, IMDCT) is "
+          "not in this model; its independence of earlier packets is checked by the disturbance oracle only. int truncation of pcm_returned is modelled; "
+          "64-bit overflow of granule arithmetic is not. Print Assumptions: closed.",
+  "technique": "Coq proof (case analysis over window transitions + lia, all block sizes) + bit-exact correspondence of extracted model vs lib/block.c + disturbance oracle",
+ },
  "C04": {
   "text": "Theorems over the block-sequencing automata of Blocking.v: for all block-size pairs, all chunkings and ALL envelope-search "
           "oracles the encoder run terminates, granules strictly increase, the last packet carries granule N + eos, window flags chain, "
